@@ -287,6 +287,39 @@ func c11Workers(r *core.Run, p *core.Prog) {
 		}
 	}
 	r.Check(rule, "worker:one-message-per-workload", p.Rel(loop.Pos()), ok && bad == "" && nNormal > 0, orStr(bad, fmt.Sprintf("paths ok=%v n=%d normal=%d", ok, len(ts), nNormal)))
+	// ownership of a sent map passes to the aggregation goroutine (which merges and clears it concurrently): the worker must
+	// send a map it created for this workload and must not keep using it — a map variable that lives across iterations is
+	// acceptable only if it is replaced by a fresh one unconditionally right after the send
+	badOwn, nSent := "", 0
+	core.Walk(loop.Body, false, func(x ast.Node) bool {
+		s, ok := x.(*ast.SendStmt)
+		if !ok || core.ObjOf(info, s.Chan) != mapChan {
+			return true
+		}
+		v, isVar := core.ObjOf(info, s.Value).(*types.Var)
+		if !isVar || v.Parent() == v.Pkg().Scope() {
+			return true // a package-level sentinel (the nil map)
+		}
+		nSent++
+		if v.Pos() >= loop.Body.Pos() && v.Pos() < loop.Body.End() {
+			return true // created for this workload
+		}
+		// declared outside the loop: the statement following the send must replace it unconditionally
+		list, idx := core.EnclosingStmtList(loop.Body, s)
+		replaced := false
+		if idx >= 0 && idx+1 < len(list) {
+			if a, ok := list[idx+1].(*ast.AssignStmt); ok && len(a.Lhs) == 1 && core.ObjOf(info, a.Lhs[0]) == types.Object(v) {
+				if _, isCall := ast.Unparen(a.Rhs[0]).(*ast.CallExpr); isCall {
+					replaced = true
+				}
+			}
+		}
+		if !replaced {
+			badOwn = fmt.Sprintf("%s: %s is sent to the aggregation goroutine but lives across workloads (declared at %s) and is not unconditionally replaced by a fresh map after the send: the worker keeps writing into a map the aggregator merges and clears concurrently, flows are counted twice or lost depending on the schedule", p.Rel(s.Pos()), v.Name(), p.Rel(v.Pos()))
+		}
+		return true
+	})
+	r.Check(rule, "worker:sent-map-is-owned-by-the-receiver", p.Rel(loop.Pos()), badOwn == "" && nSent > 0, badOwn)
 	// RunStatement: close(mapChan) after all ExecuteWorkerReadJobs and the live query wait
 	if rs := r.MustFunc(rule, "pkg/goDB/engine", "QueryRunner.RunStatement"); rs != nil {
 		ri := rs.Info()
